@@ -5,7 +5,14 @@ Correspondence: the REAL UdpServerThread, stepped deterministically (harness/srv
 Server.v's srv_step: the complete linear log of handler calls / sendto / callbacks / caught
 exceptions, and the contents of both pools (full connection snapshots) at every iteration.
 Units: srv_run (1001), srv_get_token (1003, ServerContext.get_token against scripted urandom).
-Oracle: the property restated over the implementation's handler log alone."""
+Oracle: the property restated over the implementation's handler log alone.
+callback_world (implementation only; Server.v's user callbacks only record): application send callbacks that ACT when the
+library calls them — client.disconnect() on failure (or always), client.send() with a further acting callback, kicking
+every other client, raising (alone or after acting) — so that exceptions and re-entrant API calls happen INSIDE
+ServerClientConnection.update(), including the update() the disconnect/time-out sweep itself makes in the tick a client
+is removed.  All clients of a world go silent in the same tick; client i is sent its message i ticks later, for every i
+from 0 to connection_timeout/tick + 2, so the ack time-out of one of them fires in every tick up to and including the
+tick of the silence time-out.  Behind every front door (also the reactor fronts).  Judged by lifecycle_oracle."""
 import struct
 from harness import lib
 from harness import connsim as S
@@ -351,6 +358,130 @@ def kick_at_shutdown_scenario(run, rng, idx, steps_before_finish):
         w.close()
 
 
+CB_RULE = ("callback worlds (implementation only): up to 30 real clients connect, are served, and go silent in the same tick; the handler "
+           "sends client i one message (retry NONE / BEST_EFFORT / RETRY_ON_TIMEOUT) i ticks later whose delivery callback acts when called: "
+           "disconnect-on-failure, disconnect-always, send-on-failure (chained acting callback), send-then-disconnect, kick-everybody-on-failure, "
+           "raise, disconnect-then-raise; one kind per world (quick) or mixed; offsets i cover every tick from the silence to the silence "
+           "time-out, configurations and tick lengths rotate, behind all six front doors; non-trivial = world in which >= 3 callbacks acted with "
+           "failure inside update() and at least one update() call raised out of the server's sweep or update loop")
+CB_KINDS = ["disconnect-on-failure", "send-then-disconnect-on-failure", "disconnect-then-raise", "kick-everybody-on-failure",
+            "disconnect-always", "send-on-failure", "raise"]
+CB_GRID = [((7680, 3840, 1536, 3840), 600), ((5 * T, 2 * T, 1536, T), 3000), ((7680, 3840, 1536, 3840), 300), ((15360, 7680, 3840, 7680), 600),
+           ((5 * T, 2 * T, 1536, T), 4500), ((15360, 7680, 3840, 3840), 1500)]
+
+
+def callback_world(run, rng, idx, front, kind, cfg, dt, retry):
+    from harness import srvx as X
+    W = -(-cfg[0] // dt) + 2
+    n_clients = min(W + 1, 30)
+    mixed = kind == "mixed"
+    kind_of = {}
+    plan = {}              # step -> list of (addr, cbid)
+    state = {"cb": 0}
+
+    def cb_policy(sim, obj, cbid, ok):
+        k = kind_of.get(cbid, "raise")
+        me = V.av(obj.addr)
+        acts, raises = [], False
+        if k == "disconnect-on-failure" and not ok:
+            acts = [[0, me]]
+        elif k == "disconnect-always":
+            acts = [[0, me]]
+        elif k == "send-on-failure" and not ok:
+            state["cb"] += 1
+            kind_of[state["cb"]] = rng.choice(CB_KINDS)
+            acts = [[1, me, b"again %d" % cbid, rng.choice([0, 1, -1]), state["cb"]]]
+        elif k == "send-then-disconnect-on-failure" and not ok:
+            acts = [[1, me, b"last words %d" % cbid, 0, -1], [0, me]]
+        elif k == "kick-everybody-on-failure" and not ok:
+            acts = [[0, V.av(a)] for a in list(sim.ctxt.connections.keys())]
+        elif k == "disconnect-then-raise":
+            acts, raises = ([[0, me]] if not ok else []), True
+        elif k == "raise":
+            raises = True
+        return acts, raises
+
+    def policy(sim, n, ev):
+        acts = []
+        if ev[0] == 4:
+            for c in sim.ctxt.connections.values():
+                if sim.cid(c) == ev[1]:
+                    acts.append([1, V.av(c.addr), b"echo:" + ev[3][:100], 0, -1])
+        if ev[0] == 2:
+            for a, cbid in plan.pop(len(sim.steps), []):
+                acts.append([1, V.av(a), b"are you there %d" % cbid, retry if not mixed else rng.choice([0, 1, -1]), cbid])
+        return acts, (rng.random() < 0.1 if mixed else False)
+    w = X.WorldX(run, rng, cfg=cfg, policy=policy, full=False, front=front, cb_policy=cb_policy)
+    sim = w.sim
+    if sim.reactor is not None:
+        sim.reactor.inline = True
+    label = "callback world %d (%s, %s, tick %d, retry %d)" % (idx, front, kind, dt, retry)
+    try:
+        recs = []
+        for i in range(n_clients):
+            recs.append(w.add_client(("10.4.%d.%d" % (idx % 200, i + 1), 7000 + i)))
+            if i % 4 == 3:
+                w.step(dt)
+        for _ in range(6):
+            w.step(dt)
+            if all(r["hc"].status() == 2 for r in recs):
+                break
+        for r in recs:
+            if r["hc"].status() == 2 and rng.random() < 0.5:
+                r["hc"].client.send(b"hello from %d" % r["addr"][1])
+        w.step(dt)
+        w.step(dt)
+        s0 = len(sim.steps)          # the handler's update event of this model step is the first in which everybody is silent
+        for r in recs:
+            r["ticking"] = False
+        for i, r in enumerate(recs):
+            state["cb"] += 1
+            kind_of[state["cb"]] = rng.choice(CB_KINDS) if mixed else kind
+            plan.setdefault(s0 + (i % (W + 1)), []).append((r["addr"], state["cb"]))
+        for st in range(W + (cfg[3] // dt) + 6):
+            if not w.step(dt):
+                break
+        w.finish()
+        if sim.internal:
+            raise RuntimeError("harness-internal problem: %s" % sim.internal[:3])
+        if sim.thread_exc is not None or sim.died:
+            run.oracle_violation("server loop died", {"what": "server loop died", "label": label, "exception": repr(sim.thread_exc)[:160]},
+                                 "server.py:UdpServerThread.run")
+        # disconnect exactly once, with the story of the client: which model step each event fell in, what its callbacks did
+        step, where = 0, {}
+        for o in sim.log:
+            if o == [0, [2]]:
+                step += 1
+            elif o[0] == 0 and o[1][0] in (3, 5):
+                where.setdefault(o[1][1], []).append(["connect" if o[1][0] == 3 else "disconnect", step])
+        for cid, evs in where.items():
+            nd = sum(1 for e in evs if e[0] == "disconnect")
+            if nd != 1 or evs[0][0] != "connect":
+                run.oracle_violation("disconnect not reported exactly once",
+                                     {"what": "disconnect not reported exactly once", "label": label, "cid": cid, "cfg": list(cfg), "tick": dt,
+                                      "events_with_loop_iteration": evs[:6],
+                                      "callbacks_of_this_client[iteration,cid,cbid,ok,actions,raises]": [list(c) for c in sim.cb_calls if c[1] == cid][:4],
+                                      "update_raised_for_this_client": sum(1 for o in sim.log if o == [5, cid])},
+                                     "server.py:UdpServerThread.run (disconnect / time-out sweep)")
+        lifecycle_oracle(run, sim, label, cfg)
+        acted = sum(1 for c in sim.cb_calls if c[3] == 0 and (c[4] or c[5]))
+        raised_out = sum(1 for o in sim.log if o[0] == 5)
+        run.count("callback worlds")
+        run.count("callback worlds behind " + front)
+        run.count("callback worlds " + kind)
+        run.count("callbacks that acted on failure", acted)
+        run.count("update() calls that raised out of the sweep / update loop", raised_out)
+        run.count("connects", sum(1 for o in sim.log if o[0] == 0 and o[1][0] == 3))
+        run.evaluations += len(sim.steps)
+        if acted >= 3 and raised_out >= 1:
+            run.nt(("callback world", idx, front, kind, dt))
+        if idx < 2:
+            run.sample({"world": label, "clients": n_clients, "steps": len(sim.steps), "callback_calls": [list(c) for c in sim.cb_calls[:6]],
+                        "raised_out_of_update": raised_out})
+    finally:
+        w.close()
+
+
 def run(run):
     run.rules.append(RULE)
     get_token_cases(run)
@@ -368,3 +499,12 @@ def run(run):
             impl.append([0])
             model.append(d)
     run.compare("srv_run", cases, impl, model)
+    from harness import srvx as X
+    run.rules.append(CB_RULE)
+    fronts = list(X.FRONTS) + list(X.REACTOR_FRONTS)
+    nw = 72 if run.thorough() else 10
+    with X.logging_enabled():
+        for i in range(nw):
+            cfg, dt = CB_GRID[i % len(CB_GRID)]
+            kind = (CB_KINDS + ["mixed"])[i % (len(CB_KINDS) + 1)] if i >= 3 else CB_KINDS[0]
+            callback_world(run, run.rng, i, fronts[i % len(fronts)], kind, cfg, dt, retry=[0, 1, -1][(i // 2) % 3])
